@@ -35,7 +35,7 @@ func ValidateStores(g *chaingen.Gen, bh headerfs.BlockHeaderStore, fh headerfs.F
 		return fmt.Sprintf("filter tip %d above block tip %d", len(fc)-1, len(chain)-1), len(chain) - 1, len(fc) - 1
 	}
 	for h := 1; h < len(fc); h++ {
-		n := g.ByHash[chain[h].BlockHash()]
+		n := g.Lookup(chain[h].BlockHash())
 		if n == nil {
 			return "stored block unknown to the generator", len(chain) - 1, len(fc) - 1
 		}
